@@ -609,6 +609,20 @@ fn null_optimization(sexp: Rc<SExp>, spine: bool) -> (bool, Rc<SExp>) {
     (false, sexp)
 }
 
+/// null_optimization for a whole expression: one that is itself a quoted value
+/// is data throughout and stays as it is.
+pub fn null_optimization_of_expression(sexp: Rc<SExp>) -> (bool, Rc<SExp>) {
+    if let SExp::Cons(_, a, _) = sexp.borrow() {
+        if let SExp::Atom(_, name) = a.atomize() {
+            if name == vec![1] || name == b"q" {
+                return (false, sexp);
+            }
+        }
+    }
+
+    null_optimization(sexp, true)
+}
+
 #[test]
 fn test_null_optimization_basic() {
     let loc = Srcloc::start("*test*");
